@@ -180,6 +180,17 @@ def run(ctx, R, tier):
             R.add("C20-R1", "index-page|storage-regex-listing|" + o.key.split("|", 1)[1], "the sqlite storage's own regex listing (used for the index page when the name server runs on sqlite) "
                   "matches no more than the anchored pattern the gateway checks", o.ok, o.loc, o.detail or "")
 
+    # "once": the gateway calls through an ordinary proxy method object, whose retry loop re-sends a call only as often as the retry budget says (0 by default): the
+    # loop's bound and its give-up test are shared with C03-R6 - one attempt too many runs the remote method twice for one HTTP request when the first reply is late
+    from . import c03 as _c03
+    R03_ = Rules("C03")
+    try:
+        _run_shared(ctx, _c03, R03_, tier)
+    except AnalysisError as _shared_x:
+        R.note("obligations shared from C03 are incomplete on this tree: %s" % _shared_x)
+    for o in R03_.obs:
+        if o.rule == "C03-R6" and o.key.split("|")[1] in ("_RemoteMethod.__call__", "_RemoteMethod.__init__"):
+            R.add("C20-R3", "forwarded-once|" + o.key.split("|", 1)[1], o.desc + " (one HTTP request is one invocation unless retries were asked for)", o.ok, o.loc, o.detail)
     from .common import names_bound
     names_bound(ctx, R, "C20-R3", {"Pyro5.utils.httpgateway"}, "the request is answered by the WSGI server's generic crash page instead of the gateway's 200/403/404/405/500 mapping")
     # the gateway forces the json serializer and relays the reply bytes: "that call's JSON result (200) or its error (500)" rests on the encoder refusing what json cannot
